@@ -107,8 +107,8 @@ PROPS = {
 
     "C16": {
         "suites": [("pure", "encode"), ("pure", "path"), ("gw", "mixed"), ("gw", "refs")],
-        "theorems_carry": "the expansion terminates with a body on every finite closed graph (cycles of any length, self references, shared children), for both encoders; path re-entry and soft references are href only; data values unwrapped; failed references rendered as their error",
-        "correspondence_only": "that the encoders' output equals the recursive expansion as JSON (differential run on random graphs against the real encoders built on synthetic Subscription trees, compared as JSON trees; HTTP GET through the real gateway in lockstep incl. status and body); POST result / 204 / Location and HEAD are not modelled",
+        "theorems_carry": "refinement: for every graph, path, prefix and both encodings the bytes written by the (modelled) encoders are the print-out of the recursive expansion as a JSON tree (href + model/collection/error in json, bare content in jsonflat, soft references and path re-entries href only, data values unwrapped, failed references as their error), whose printer is well-formed by construction; the expansion terminates with a body on every finite closed graph (cycles of any length, self references, shared children)",
+        "correspondence_only": "that the real encoders write what the modelled ones do (differential run on random graphs against the real encoders built on synthetic Subscription trees; independent Go reference renderer as spec monitor; HTTP GET through the real gateway in lockstep incl. status and body); POST result / 204 / Location and HEAD are not modelled (POST paths: pure path suite only)",
         "assumptions": ["leaf values are well-formed JSON (validated by encoding/json on entry)", "references of a loaded subscription always resolve (closed graph)"],
     },
 
